@@ -104,7 +104,7 @@ def stack(me, role):
     return me.attrs[me.attrs['__roles__'][role]]
 
 
-def execute_scenarios(ctx, sym, mod):
+def execute_scenarios(ctx, sym, mod, code='x = 1'):
     """Sandbox._execute executed abstractly for every raise point (compile, tracer enter, exec, tracer exit, none) x
     exception class. Yields (where, kind, observations)."""
     from .. import symexec
@@ -140,7 +140,7 @@ def execute_scenarios(ctx, sym, mod):
                 'compile': boom('compile', ret=symexec.marker('code-object')), 'exec': boom('exec'),
                 'SandboxContext': rec.stub('SandboxContext', fn=lambda *a, **k: Obj('context')),
                 'sys.exc_info': lambda: exc_info})
-            value, raised = symexec.run(fd, fn, ['x = 1', 'answer.py', 'run', False], bound_self=me,
+            value, raised = symexec.run(fd, fn, [code, 'answer.py', 'run', False], bound_self=me,
                                         what='Sandbox._execute')
             yield where, kind, dict(rec=rec, value=value, raised=raised, me=me, exc=exc, exc_info=exc_info)
 
